@@ -80,13 +80,16 @@ def case(prog, hist, cls):
     return dict(prog=prog, conds=['c1'], flows=['f1'], hist=hist, cls=cls)
 
 
-def exhaustive_cases(names, depth):
+def exhaustive_cases(names, depth, reduced=False):
     out = []
     for nm in names:
         prog = PROGSETS[nm]
         al = alphabet(prog)
         if len(prog) > 2:
             al = [e for e in al if e['op'] in ('next', 'stop', 'reset', 'tick', 'play')]
+        if reduced:     # 12 calls: everything on r1, next/stop/reset on r2, signal, value=, tick
+            al = [e for e in al if (e['t'] == 'r1' and e['v'] == 0) or (e['t'] == 'r2' and e['op'] in ('next', 'stop', 'reset'))
+                  or e['op'] in ('signal', 'fset', 'tick')]
         for h in itertools.product(al, repeat=depth):
             out.append(case(prog, list(h), 'exh:' + nm))
     return out
@@ -248,7 +251,7 @@ def run(ctx):
         # out of memory), so a one-worker run records in TLC registers that every action and every situation an L1
         # predicate talks about (Witnesses in Routine.tla) is reached, and prints them in a POSTCONDITION
         fs = [ex.submit(witness_run, ctx)]
-        for sel in (1, 2, 3, 4):
+        for sel in ((1, 2, 3, 4, 6) if thorough else (1, 2, 3, 4)):
             fs.append(ex.submit(model_check_in, ctx, 'p%d' % sel, 'Routine',
                                 'Routine_p%d%s.cfg' % (sel, '_thorough' if thorough else ''),
                                 timeout=1800, workers=4, label='bodies p%d' % sel))
@@ -259,12 +262,12 @@ def run(ctx):
     # 2. binding: exhaustive short histories, random long ones, simulated spec behaviours
     rnd = random.Random(ctx.seed)
     if thorough:
-        cases = exhaustive_cases(sorted(PROGSETS), 3) + exhaustive_cases(('nestops', 'reentry', 'cond', 'flowvar'), 4)
+        cases = exhaustive_cases(sorted(PROGSETS), 3) + exhaustive_cases(('nestops', 'reentry', 'cond', 'embed'), 4, reduced=True)
     else:
         cases = exhaustive_cases(QUICK_SETS, 2) + exhaustive_cases(('reentry', 'cond'), 3)
     nrand = 6000 if thorough else 500
     cases += [random_case(rnd, rnd.randint(15, 60), clocky=(i % 3 == 0)) for i in range(nrand)]
-    for sel in (1, 2, 3, 4):
+    for sel in ((1, 2, 3, 4, 6) if thorough else (1, 2, 3, 4)):
         cases += sim_cases(ctx, sel, 1500 if thorough else 120, 14, ctx.seed + sel)
     ph['generate+simulate'] = round(time.time() - t0, 1)
     traces = run_cases(ctx, cases)
